@@ -9,6 +9,10 @@ Oracles (independent evaluation of the DOCUMENTED definitions at uniform density
               my own transcription of the documented a_i formula;
   SDMX      : the documented H_j^0 / H_j^0d integrals for the uniform-gas density matrix
               3 rho j1(kF u)/(kF u), nested 1-D quadratures, times the -1/4 n_spin^2 convention;
+  FracLapl  : momentum-space quadrature over the Fermi sphere of the documented operators acting on the uniform-gas density
+              matrix 2 int_{k<kF} d3k/(2 pi)^3 e^{ik(r-r')}: (-Lapl')^s -> (1/pi^2) int k^(2+2s) dk; the l=1 / F^d vector features
+              vanish by isotropy, so every contraction of them is 0; the F^dd feature (grad . grad' (-Lapl')^s) ->
+              (1/pi^2) int k^(4+2s) dk; plus the declared density-scaling powers;
   normalisers: FeatureSettings.ueg_vector(with_normalizers=True) equals the raw vector pushed
               through the real FeatNormalizerList; consequence: a model centred on these values
               returns its baseline for uniform-gas input.
@@ -46,6 +50,12 @@ def initial_cases(tier, seed):
         cases.append({"kind": "vij", "level": level, "rho_mult": rm, "theta": th, "fp": fp})
     for cls in ("SDMX", "SDMXG", "SDMX1", "SDMXG1", "SDMXFull", "SADM", "SDMXG-all", "SDMXG1-all", "SDMX1-all"):
         cases.append({"kind": "sdmx", "cls": cls})
+    # fractional-Laplacian settings: exponents on both sides of every special value of the closed form (-1/2, 0, 1/2, 1,
+    # 3/2, 2) and the special values themselves; all feature groups present / absent
+    for slist in ([-1.0, -0.5, 0.25, 0.5, 1.0, 1.25, 1.75], [1.5, 2.0, 0.0, -1.25, 0.75], [0.5]):
+        n = len(slist)
+        for nk0, nk1, nd1, ndd in ((n, 0, 0, 0), (n, min(2, n), 0, 0), (max(1, n - 2), min(2, n), min(2, n), 0), (n, 1, min(3, n), min(2, n)), (1, 0, 1, 1)):
+            cases.append({"kind": "nlof", "slist": slist, "nk0": nk0, "nk1": nk1, "nd1": nd1, "ndd": ndd})
     for fam, sl, rm in itertools.product(["VJ", "VI", "VIJ", "VK", "VIJ2", "VI0", "SDMX", "SDMXG1", "SDMXFull", "VIJ+SDMX1"], ["npa", "nst", "np", "ns"], ["one", "expnt"]):
         if rm == "expnt" and not fam.startswith("V"):
             continue
@@ -162,6 +172,56 @@ def run_sdmx(case):
     return {"fail": fails, "evals": 3, "outcome": out}
 
 
+def run_nlof(case):
+    from scipy.integrate import quad
+
+    from ciderpress.dft import settings as S
+
+    slist, nk0, nk1, nd1, ndd = case["slist"], case["nk0"], case["nk1"], case["nd1"], case["ndd"]
+    l1 = [(-1, j) for j in range(nk1)] + [(j, k) for j in range(nk1) for k in range(j, nk1)]
+    ld = [(-1, j) for j in range(nd1)] + [(j, k) for j in range(nd1) for k in range(j, nd1)]
+    st = S.FracLaplSettings(list(slist), nk0, nk1, l1, nd1=nd1, ld_dots=ld, ndd=ndd)
+    ck = "slist=%s;nk0=%d;nk1=%d;nd1=%d;ndd=%d" % (",".join("%g" % x for x in slist), nk0, nk1, nd1, ndd)
+    fails, out, evals = [], [], 0
+    usps = list(st.get_feat_usps())
+    for rho in RHOS:
+        kf = (3 * np.pi ** 2 * rho) ** (1.0 / 3)
+        u = np.asarray(st.ueg_vector(rho), dtype=float)
+        evals += 1
+        ref = [quad(lambda k, s=s: k ** (2 + 2 * s), 0, kf, epsabs=0, epsrel=1e-12)[0] / np.pi ** 2 for s in slist[:nk0]]
+        ref += [0.0] * (len(l1) + len(ld))
+        ref += [quad(lambda k, s=s: k ** (4 + 2 * s), 0, kf, epsabs=0, epsrel=1e-12)[0] / np.pi ** 2 for s in slist[:ndd]]
+        ref = np.array(ref)
+        if u.shape != ref.shape or u.size != st.nfeat:
+            fails.append({"key": "nlof-ueg-length;" + ck, "msg": "ueg_vector has %s entries, the settings define %d features" % (u.shape, st.nfeat)})
+            break
+        for j in range(ref.size):
+            if not abs(u[j] - ref[j]) <= 1e-9 * max(abs(ref[j]), 1e-300) + (0 if ref[j] else 1e-300):
+                grp = "scalar" if j < nk0 else ("dd" if j >= ref.size - ndd else "dot")
+                sv = slist[j] if j < nk0 else (slist[j - (ref.size - ndd)] if grp == "dd" else float("nan"))
+                fails.append({"key": "nlof-ueg;%s;group=%s;s=%g" % (ck, grp, sv),
+                              "msg": "FracLaplSettings.ueg_vector(%g)[%d] = %.12g but the Fermi-sphere integral of the documented %s feature (s = %g) is %.12g" % (
+                                  rho, j, u[j], grp, sv, ref[j])})
+                break
+        if len(usps) != u.size:
+            fails.append({"key": "nlof-usp-length;" + ck, "msg": "len(get_feat_usps) = %d != len(ueg_vector) = %d" % (len(usps), u.size)})
+        else:
+            u2 = np.asarray(st.ueg_vector(rho * 8.0), dtype=float)
+            for j in range(u.size):
+                if not abs(u2[j] - u[j] * 2.0 ** usps[j]) <= 1e-10 * max(abs(u2[j]), 1e-300) + (0 if u[j] else 1e-300):
+                    fails.append({"key": "nlof-ueg-usp;%s;feat=%d" % (ck, j), "msg": "UEG value does not scale with the declared power %g: %.10g vs %.10g" % (usps[j], u2[j], u[j] * 2.0 ** usps[j])})
+                    break
+        # the same vector through FeatureSettings
+        fs = S.FeatureSettings(sl_settings=S.SemilocalSettings("nst"), nlof_settings=st)
+        full = np.asarray(fs.ueg_vector(rho), dtype=float)
+        if full.size != 3 + u.size or not np.array_equal(full[3:], u):
+            fails.append({"key": "nlof-ueg-featuresettings;" + ck, "msg": "FeatureSettings.ueg_vector does not carry the fractional-Laplacian block unchanged"})
+        out.append([float("%.9e" % x) for x in u])
+        if fails:
+            break
+    return {"fail": fails, "evals": evals, "outcome": out}
+
+
 def run_norm(case):
     from mc import fixtures as F
 
@@ -229,6 +289,8 @@ def run_case(case):
         return run_nldf(case)
     if k == "sdmx":
         return run_sdmx(case)
+    if k == "nlof":
+        return run_nlof(case)
     if k == "norm":
         return run_norm(case)
     return run_normclass(case)
